@@ -221,12 +221,11 @@ impl FromStr for Point {
 
     // Parse an algebraic pair into a board position
     fn from_str(pair: &str) -> Result<Self, Self::Err> {
-        if pair.len() != 2 {
-            return Err("Invalid length for algebraic string");
-        }
-
-        let c = pair.chars().next().unwrap();
-        let r = pair.chars().nth(1).unwrap();
+        let mut chars = pair.chars();
+        let (c, r) = match (chars.next(), chars.next(), chars.next()) {
+            (Some(c), Some(r), None) => (c, r),
+            _ => return Err("Invalid length for algebraic string"),
+        };
         let col = match c {
             'a' => 0,
             'b' => 1,
@@ -239,7 +238,10 @@ impl FromStr for Point {
             _ => return Err("Invalid column"),
         };
 
-        let row = BOARD_END - (r.to_digit(10).unwrap() as usize);
+        let row = match r.to_digit(10) {
+            Some(digit) => BOARD_END - (digit as usize),
+            None => return Err("Invalid row"),
+        };
         if !(BOARD_START..BOARD_END).contains(&row) {
             return Err("Invalid row");
         }
@@ -322,12 +324,12 @@ impl BoardState {
         let castling_privileges = fen_config[2];
         let en_passant = fen_config[3];
 
-        let half_move_clock = fen_config[4].parse::<u8>();
+        let half_move_clock = fen_config[4].parse::<u32>();
         if half_move_clock.is_err() {
             return Err("Could not parse fen string: Invalid half move value");
         }
 
-        let full_move_clock = fen_config[5].parse::<u8>();
+        let full_move_clock = fen_config[5].parse::<u32>();
         if full_move_clock.is_err() {
             return Err("Could not parse fen string: Invalid full move value");
         }
